@@ -214,7 +214,7 @@ where
             pf.result()
         }
     };
-    let cfg = Config { workers: case.workers, choose_items: case.choose_items, max_decisions: 4000, min_items: 2 };
+    let cfg = Config { workers: case.workers, choose_items: case.choose_items, max_decisions: 4000, min_items: 2, count_task_switches: false };
     let mut outcomes: BTreeSet<Vec<(usize, usize)>> = BTreeSet::new();
     let mut par_calls = 0usize;
     let mut retries = 0u64;
@@ -463,7 +463,7 @@ fn replay(path: &str) -> ! {
                 pf.result()
             }
         };
-        let cfg = Config { workers, choose_items, max_decisions: 4000, min_items: 2 };
+        let cfg = Config { workers, choose_items, max_decisions: 4000, min_items: 2, count_task_switches: false };
         let mut verdicts = vec![];
         for round in 0..2 {
             let (r, tr) = sched::run_scheduled(&cfg, schedule, body);
